@@ -25,7 +25,7 @@ MONITORS = ["serialize_loaded", "reload_equal", "second_save_identical"]
 REQUIRED = ["key_only_loaded", "lower_case_key", "duplicate_key", "param_after_notes", "lenient_with_stray",
             "chart_both_notes_and_notes2", "corpus_mutation", "sm_chart_loaded", "ssc_chart_loaded", "sm_backslash_without_other_meta",
             "ssc_version_not_first", "key_only_multi_value_in_chart", "sm_twin_charts_differing_in_extradata",
-            "double_slash_across_a_4096_block_boundary_of_a_chart_value"]
+            "double_slash_across_a_4096_block_boundary_of_a_chart_value", "lone_surrogate_in_a_value"]
 
 
 def anchors():
@@ -78,6 +78,17 @@ def cases(ctx):
                     j = rng.choice(idx)
                     other = "NOTES2" if segs[j][1].upper() == "NOTES" else "NOTES"
                     segs.insert(j + rng.choice([0, 1]), ["param", other, ["0001\n"], ";"])
+            if rng.random() < 0.05:
+                # text as it comes out of a file read with errors='surrogateescape': a lone surrogate code point in a value,
+                # a key or (long or short) note data -- a str like any other for the parser and the serializer
+                sur = rng.choice(["\udc80", "\udcff", "\ud800"])
+                ps = [s for s in case["segments"] if s[0] == "param" and s[2]]
+                if ps:
+                    s = rng.choice(ps)
+                    j = rng.randrange(len(s[2]))
+                    filler = "0000\n" * rng.choice([0, 0, 500, 2000])
+                    s[2][j] = filler + s[2][j] + sur + rng.choice(["", "x"])
+                    case["lone_surrogate"] = True
             yield case
 
 
@@ -122,6 +133,8 @@ def check(ctx, case):
     from simfile.ssc import SSCSimfile
 
     text = case["text"] if case["kind"] == "corpus" else G.render(case["segments"])
+    if case.get("lone_surrogate"):
+        ctx.feat("lone_surrogate_in_a_value")
     if c03._ends_with_odd_backslashes(text):
         ctx.begin(case, nontrivial=False)
         ctx.skip("text ends in an unpaired backslash (known finding)")
